@@ -1,6 +1,6 @@
 SPECIFICATION Spec
 CONSTANTS
-  MaxTok = 4
+  MaxTok = 3
   NTok = 20
   EmitB = TRUE
 INVARIANTS Terminates AgreesWithRun ResultOk EmitBehaviour
